@@ -172,7 +172,9 @@ impl Extend<Command> for CommandList {
 /// assert_eq!(escape_argument("foo'bar\""), "foo\\'bar\\\"");
 /// ```
 pub fn escape_argument(argument: &str) -> Cow<'_, str> {
-    let needs_quotes = argument.contains(&[' ', '\t'][..]);
+    // MPD's tokenizer treats every byte up to and including the space as a separator, and an
+    // empty argument only exists in quoted form
+    let needs_quotes = argument.is_empty() || argument.bytes().any(|b| b <= b' ');
     let escape_count = argument.chars().filter(|c| should_escape(*c)).count();
 
     if escape_count == 0 && !needs_quotes {
